@@ -101,10 +101,14 @@ type c01WalData struct {
 type c01WAL struct {
 	sink *c01Sink
 	data map[string]*c01WalData
+	// file mode: the engine's REAL file WAL (consensus.OpenWALForWrite / OpenWALForRead) under dir; the
+	// in-memory data is kept as a shadow (effect log + durable-before-send oracle)
+	file    bool
+	writers map[string]*c01WalWriter
 }
 
 func c01NewWAL(sink *c01Sink) *c01WAL {
-	return &c01WAL{sink: sink, data: map[string]*c01WalData{"round": {}, "lock": {}, "commit": {}}}
+	return &c01WAL{sink: sink, data: map[string]*c01WalData{"round": {}, "lock": {}, "commit": {}}, writers: map[string]*c01WalWriter{}}
 }
 
 func (w *c01WAL) get(id string) (string, *c01WalData) {
@@ -117,6 +121,9 @@ func (w *c01WAL) get(id string) (string, *c01WalData) {
 }
 
 func (w *c01WAL) OpenForRead(id string) (consensus.WALReader, error) {
+	if w.file {
+		return consensus.OpenWALForRead(id)
+	}
 	_, d := w.get(id)
 	w.sink.mu.Lock()
 	defer w.sink.mu.Unlock()
@@ -125,11 +132,27 @@ func (w *c01WAL) OpenForRead(id string) (consensus.WALReader, error) {
 
 func (w *c01WAL) OpenForWrite(id string, cfg *consensus.WALConfig) (consensus.WALWriter, error) {
 	k, d := w.get(id)
-	return &c01WalWriter{w: w, k: k, d: d}, nil
+	ww := &c01WalWriter{w: w, k: k, d: d}
+	if w.file {
+		real, err := consensus.OpenWALForWrite(id, cfg)
+		if err != nil {
+			return nil, err
+		}
+		ww.real, ww.id = real, id
+		v := consensus.VerifC03WriterOf(real)
+		if fi, err := os.Stat(consensus.VerifC03FileFor(id, v.TailIdx())); err == nil {
+			ww.syncedSize = fi.Size()
+		}
+		w.writers[k] = ww
+	}
+	return ww, nil
 }
 
-// crash: k unsynced records of every WAL survive
-func (w *c01WAL) crash(k int) {
+// crash: k unsynced records of every WAL survive.  File mode: the process dies without Close; the tail
+// file keeps the synced bytes plus the first k unsynced frames, plus — if there is a further frame —
+// either `tear` bytes of it (torn record) or, with corrupt set, the whole frame with one payload byte
+// flipped (full length, CRC mismatch).
+func (w *c01WAL) crash(k, tear int, corrupt bool) {
 	for _, d := range w.data {
 		n := k
 		if n > len(d.buffered) {
@@ -137,6 +160,51 @@ func (w *c01WAL) crash(k int) {
 		}
 		d.synced = append(d.synced, d.buffered[:n]...)
 		d.buffered = nil
+	}
+	if !w.file {
+		return
+	}
+	for key, ww := range w.writers {
+		v := consensus.VerifC03WriterOf(ww.real)
+		file := consensus.VerifC03FileFor(ww.id, v.TailIdx())
+		_ = v.Crash()
+		keep := ww.syncedSize
+		i := 0
+		for ; i < k && i < len(ww.frames); i++ {
+			keep += int64(ww.frames[i])
+		}
+		corruptAt := int64(-1)
+		if i < len(ww.frames) {
+			if corrupt {
+				keep += int64(ww.frames[i])
+				corruptAt = keep - 1
+			} else if tear > 0 {
+				t := tear
+				if t > ww.frames[i]-1 {
+					t = ww.frames[i] - 1
+				}
+				keep += int64(t)
+			}
+		}
+		if err := os.Truncate(file, keep); err != nil {
+			panic(err)
+		}
+		if corruptAt >= 0 {
+			f, err := os.OpenFile(file, os.O_RDWR, 0)
+			if err != nil {
+				panic(err)
+			}
+			b := []byte{0}
+			if _, err := f.ReadAt(b, corruptAt); err != nil {
+				panic(err)
+			}
+			b[0] ^= 0x5a
+			if _, err := f.WriteAt(b, corruptAt); err != nil {
+				panic(err)
+			}
+			f.Close()
+		}
+		delete(w.writers, key)
 	}
 }
 
@@ -157,6 +225,11 @@ type c01WalWriter struct {
 	w *c01WAL
 	k string
 	d *c01WalData
+	// file mode
+	real       consensus.WALWriter
+	id         string
+	syncedSize int64 // bytes of the tail file known to be synced
+	frames     []int // frame lengths (header + payload) written since the last sync
 }
 
 func (w *c01WalWriter) WriteBytes(bs []byte) (int, error) {
@@ -165,6 +238,12 @@ func (w *c01WalWriter) WriteBytes(bs []byte) (int, error) {
 		w.w.sink.mu.Lock()
 		w.d.buffered = append(w.d.buffered, cp)
 		w.w.sink.mu.Unlock()
+		if w.real != nil {
+			if _, err := w.real.WriteBytes(bs); err != nil {
+				return 0, err
+			}
+			w.frames = append(w.frames, consensus.VerifC03HeaderLen+len(bs))
+		}
 	}
 	return len(bs), nil
 }
@@ -175,11 +254,21 @@ func (w *c01WalWriter) Sync() error {
 		w.d.synced = append(w.d.synced, w.d.buffered...)
 		w.d.buffered = nil
 		w.w.sink.mu.Unlock()
+		if w.real != nil {
+			if err := w.real.Sync(); err != nil {
+				return err
+			}
+			for _, f := range w.frames {
+				w.syncedSize += int64(f)
+			}
+			w.frames = nil
+		}
 	}
 	return nil
 }
 
-// Close is only reached through Term() when the harness kills the engine; nothing is flushed.
+// Close is only reached through Term() when the harness kills the engine; nothing is flushed (the real
+// file writer is dropped by c01WAL.crash without Close).
 func (w *c01WalWriter) Close() error { return nil }
 
 // ---------------------------------------------------------------- chain / network wrappers
@@ -309,6 +398,9 @@ type c01Runner struct {
 	delivered map[string]bool   // votes handed to the engine "sg.t.h.r.v"
 	myPrecommits []c01Own       // in order
 	restartsAt   []int          // len(myPrecommits) at each restart
+	walDir       string          // file mode: directory of the real file WALs
+	kills        int             // crashes so far (= process lives - 1)
+	sentRaw      map[string][]byte // signed bytes per (type,h,r) / (h,r)
 	pvKeys       map[string]bool // "h/r/v" of prevotes shown to the engine
 	nodesToClose []*test.Node
 }
@@ -334,6 +426,14 @@ func (r *c01Runner) cleanup() {
 		}()
 	}
 	r.nodesToClose = nil
+	if r.walDir != "" {
+		// stop the housekeeping goroutines of writers that are still open before the directory goes away
+		func() {
+			defer func() { recover() }()
+			r.wal.crash(1<<30, 0, false)
+		}()
+		os.RemoveAll(r.walDir)
+	}
 }
 
 func c01PSIDKey(id *consensus.PartSetID) string {
@@ -363,7 +463,7 @@ func (r *c01Runner) labelOfBlockID(id []byte) string {
 func (r *c01Runner) ownLabel(h int64, rd int32) int {
 	// BlockManager.Propose yields the same block in every round of a height; a second distinct own
 	// block at one height gets another label (and would show up as a disagreement with the model)
-	lab := 8*(100+50*int(h)) + r.me
+	lab := 8*(100+50*int(h)+r.kills) + r.me
 	for r.byLabel[lab] != nil {
 		lab += 8
 	}
@@ -531,10 +631,12 @@ func (r *c01Runner) onSigned(pi module.ProtocolInfo, bs []byte) bool {
 		key := f[2] + "." + f[3] + "." + f[4]
 		if old, ok := r.sentVotes[key]; ok {
 			r.o.Check(old == f[5], "equivocation-two-votes-same-type-height-round", "votes %s and %s for (type,h,r)=%s", old, f[5], key)
+			r.o.Check(bytes.Equal(r.sentRaw["V"+key], bs), "equivocation-two-votes-same-type-height-round", "two signed votes with different bytes (timestamp) for (type,h,r)=%s value %s", key, f[5])
 		} else {
 			r.o.Count("own-vote-" + map[string]string{"0": "prevote", "1": "precommit"}[f[2]] + map[bool]string{true: "-nil", false: "-block"}[f[5] == "-"])
 		}
 		r.sentVotes[key] = f[5]
+		r.sentRaw["V"+key] = append([]byte(nil), bs...)
 		h, _ := strconv.ParseInt(f[3], 10, 64)
 		rd, _ := strconv.ParseInt(f[4], 10, 64)
 		t, _ := strconv.Atoi(f[2])
@@ -659,7 +761,11 @@ func (r *c01Runner) nodeOptions() []test.FixtureOption {
 			NewCS: func(ctx *test.NodeContext) module.Consensus {
 				ch := &c01Chain{Chain: ctx.C, nm: &c01NM{NetworkManager: ctx.C.NetworkManager(), sink: sink}}
 				var c base.Chain = ch
-				return consensus.New(c, path.Join(ctx.Base, "wal"), wal, nil, nil, nil, time.Hour)
+				dir := path.Join(ctx.Base, "wal")
+				if r.walDir != "" {
+					dir = r.walDir // file mode: the same directory for every life of the node
+				}
+				return consensus.New(c, dir, wal, nil, nil, nil, time.Hour)
 			},
 			NewSM: func(ctx *test.NodeContext) module.ServiceManager {
 				return &c01SM{ServiceManager: test.NewServiceManager(ctx.C, ctx.Platform, ctx.CM, ctx.EM), r: r}
@@ -675,7 +781,7 @@ func (r *c01Runner) nodeOptions() []test.FixtureOption {
 	}
 }
 
-func (r *c01Runner) doInit(n, me int) string {
+func (r *c01Runner) doInit(n, me int, file bool) string {
 	if r.fx != nil || n < 4 || n > 7 || me < 0 || me >= n {
 		return "bad-op"
 	}
@@ -683,6 +789,22 @@ func (r *c01Runner) doInit(n, me int) string {
 	r.n, r.me = n, me
 	r.sink = &c01Sink{budget: -1, r: r}
 	r.wal = c01NewWAL(r.sink)
+	r.sentRaw = map[string][]byte{}
+	if file {
+		base := os.TempDir()
+		if st, err := os.Stat("/dev/shm"); err == nil && st.IsDir() {
+			base = "/dev/shm"
+		}
+		dir, err := os.MkdirTemp(base, "verif-c02-wal-")
+		if err != nil {
+			return "fixture-error"
+		}
+		r.walDir = dir
+		r.wal.file = true
+		r.o.Count("case-file-wal")
+	} else {
+		r.o.Count("case-memory-wal")
+	}
 	r.byLabel, r.byPSID, r.byBID = map[int]*c01Block{}, map[string]*c01Block{}, map[string]*c01Block{}
 	r.sentVotes, r.sentProps = map[string]string{}, map[string]string{}
 	r.finalized, r.delivered, r.pvKeys = map[int64]string{}, map[string]bool{}, map[string]bool{}
@@ -861,6 +983,13 @@ func (r *c01Runner) doEvent(toks []string) (string, bool) {
 			r.bm = nd.BM.(*c01BM)
 			r.restartsAt = append(r.restartsAt, len(r.myPrecommits))
 			r.o.Count("restart")
+			// the transaction pool is volatile: every new life starts with a fresh transaction in it, so a
+			// block proposed after a restart differs from one proposed before
+			if lb, err := nd.BM.GetLastBlock(); err == nil {
+				if _, err := nd.SM.SendTransaction(nil, 0, test.NewTx().SetTimestamp(lb.Timestamp()+int64(r.kills)).String()); err != nil {
+					r.o.Count("pool-tx-rejected")
+				}
+			}
 		}
 		r.sink.mu.Lock()
 		r.sink.dead, r.sink.budget = false, -1
@@ -935,7 +1064,7 @@ func (r *c01Runner) doEvent(toks []string) (string, bool) {
 	return "", true
 }
 
-func (r *c01Runner) kill(k int) {
+func (r *c01Runner) kill(k, tear int, corrupt bool) {
 	r.sink.mu.Lock()
 	r.sink.dead = true
 	r.sink.mu.Unlock()
@@ -944,11 +1073,17 @@ func (r *c01Runner) kill(k int) {
 		r.node.CS.Term()
 	}()
 	r.sink.mu.Lock()
-	r.wal.crash(k)
+	r.wal.crash(k, tear, corrupt)
 	r.sink.effs = append(r.sink.effs, fmt.Sprintf("X.%d", k))
 	r.sink.mu.Unlock()
 	r.up = false
+	r.kills++
 	r.o.Count("crash")
+	if r.wal.file && corrupt {
+		r.o.Count("crash-file-corrupt-record")
+	} else if r.wal.file && tear > 0 {
+		r.o.Count("crash-file-torn-record")
+	}
 }
 
 func (r *c01Runner) Step(toks []string, o *Oracle) (res string) {
@@ -970,7 +1105,7 @@ func (r *c01Runner) Step(toks []string, o *Oracle) (res string) {
 	}()
 	switch toks[0] {
 	case "init":
-		if len(toks) != 3 {
+		if len(toks) != 3 && !(len(toks) == 4 && toks[3] == "f") {
 			return "bad-op"
 		}
 		n, err1 := strconv.Atoi(toks[1])
@@ -978,7 +1113,7 @@ func (r *c01Runner) Step(toks []string, o *Oracle) (res string) {
 		if err1 != nil || err2 != nil {
 			return "bad-op"
 		}
-		return r.doInit(n, me)
+		return r.doInit(n, me, len(toks) == 4)
 	case "end":
 		r.cleanup()
 		return "ok"
@@ -988,14 +1123,24 @@ func (r *c01Runner) Step(toks []string, o *Oracle) (res string) {
 	}
 	switch toks[0] {
 	case "crash":
-		if len(toks) != 2 || !r.up {
+		// crash k [tear corrupt]: the byte-level part only matters on the real file WAL
+		if (len(toks) != 2 && len(toks) != 4) || !r.up {
 			return "bad-op"
 		}
 		k, err := strconv.Atoi(toks[1])
 		if err != nil || k < 0 {
 			return "bad-op"
 		}
-		r.kill(k)
+		tear, corrupt := 0, false
+		if len(toks) == 4 {
+			t, err1 := strconv.Atoi(toks[2])
+			c, err2 := strconv.Atoi(toks[3])
+			if err1 != nil || err2 != nil || t < 0 || (c != 0 && c != 1) {
+				return "bad-op"
+			}
+			tear, corrupt = t, c == 1
+		}
+		r.kill(k, tear, corrupt)
 		return r.finish(true)
 	case "die":
 		if len(toks) < 4 || !r.up {
@@ -1015,7 +1160,7 @@ func (r *c01Runner) Step(toks []string, o *Oracle) (res string) {
 		if _, ok := r.settle(); !ok {
 			return "async-timeout"
 		}
-		r.kill(k)
+		r.kill(k, 0, false)
 		r.o.Count("die-mid-event")
 		return r.finish(true)
 	}
@@ -1033,6 +1178,7 @@ type c01G struct {
 	events int
 	crashy int // percent chance of a crash/restart after an event
 	die    bool
+	file   bool // real file WAL: crashes get a byte-level tail (torn / corrupt record)
 }
 
 func (c *c01G) proposer(h, r int) int { return (h + r) % c.n }
@@ -1073,9 +1219,27 @@ func (c *c01G) emit(format string, args ...interface{}) {
 	c.g.Emit("%s", line)
 	c.events++
 	if c.g.Intn(100) < c.crashy {
-		c.g.Emit("crash %d", c.g.Pick(0, 0, 1, 2, 5))
+		c.crash()
 		c.g.Emit("start")
 		c.events += 2
+	}
+}
+
+// crash between events; on the file WAL with a byte-level tail: k whole unsynced records survive, then
+// nothing / a torn piece of the next record / the whole next record with a flipped byte
+func (c *c01G) crash() {
+	k := c.g.Pick(0, 0, 1, 2, 5)
+	if !c.file {
+		c.g.Emit("crash %d", k)
+		return
+	}
+	switch c.g.Intn(3) {
+	case 0:
+		c.g.Emit("crash %d 0 0", k)
+	case 1:
+		c.g.Emit("crash %d %d 0", k, c.g.Pick(1, 7, 8, 9, 40, 100000))
+	default:
+		c.g.Emit("crash %d 0 1", k)
 	}
 }
 
@@ -1301,6 +1465,94 @@ func (c *c01G) latePolkaScript() {
 	c.emit("tmo 5")
 }
 
+// file WAL: a record left torn / corrupt by a crash must be cut away by the recovery, otherwise what is
+// signed after the recovery is appended behind it and forgotten by the NEXT recovery.  Two restart cycles,
+// signed votes in between, the other validators' votes re-delivered after every restart.
+func (c *c01G) fileCrashScript() {
+	h := 1
+	o := c.others()
+	b := c.blockBy(c.proposer(h, 0))
+	c.g.Emit("prop %d %d %d %d -1", c.proposer(h, 0), h, 0, b)
+	c.g.Emit("part %d %d", h, b)
+	c.vote0(o[0], h, 0, 0, b)
+	c.vote0(o[1], h, 0, 0, -1) // 3 prevotes, no decision: prevoteWait, vote list written but not synced
+	if c.g.Intn(2) == 0 {
+		c.g.Emit("crash 0 0 1") // the unsynced vote list survives in full length with a bad CRC
+	} else {
+		c.g.Emit("crash 0 %d 0", c.g.Pick(5, 8, 9, 30))
+	}
+	c.g.Emit("start")
+	c.vote0(o[0], h, 0, 0, b)
+	c.vote0(o[2], h, 0, 0, b) // polka: lock + precommit b, appended after the recovery point
+	if c.g.Intn(2) == 0 {
+		c.vote0(o[0], h, 1, 0, -1)
+	}
+	c.g.Emit("crash %d 0 0", c.g.Intn(2))
+	c.g.Emit("start")
+	// re-delivery; this time no polka in time
+	c.vote0(o[0], h, 0, 0, b)
+	c.vote0(o[1], h, 0, 0, -1)
+	c.g.Emit("tmo 5")
+	c.vote0(o[0], h, 1, 0, -1)
+	c.vote0(o[1], h, 1, 0, -1)
+	c.g.Emit("tmo 7")
+	c.g.Emit("crash 0 0 %d", c.g.Intn(2))
+	c.g.Emit("start")
+	c.g.Emit("tmo 3")
+	c.vote0(o[0], h, 0, 1, -1)
+	c.vote0(o[1], h, 0, 1, -1)
+	c.g.Emit("tmo 5")
+}
+
+// vote0 emits a vote line without the random crash / die decoration
+func (c *c01G) vote0(sg, h, t, r, v int) {
+	if v < 0 {
+		c.g.Emit("vote %d %d %d %d -", sg, h, t, r)
+	} else {
+		c.g.Emit("vote %d %d %d %d %d", sg, h, t, r, v)
+	}
+}
+
+// the validator is the proposer of a round >= 1: it has voted in the earlier rounds, signs its proposal
+// and dies between the proposal's WAL sync / send and the prevote's WAL sync.  After the restart its own
+// proposal is the last record of the round WAL.
+func (c *c01G) proposerCrashScript() {
+	h := 1
+	q := c.n*2/3 + 1
+	rme := (c.me - h%c.n + c.n) % c.n // (h + r) % n == me
+	for rme == 0 {
+		rme += c.n
+	}
+	A := c.others()[:q-1]
+	for r := 0; r < rme; r++ {
+		c.g.Emit("tmo 3")
+		for _, sg := range A {
+			c.vote0(sg, h, 0, r, -1)
+		}
+		for i, sg := range A {
+			if r == rme-1 && i == len(A)-1 {
+				// this precommit completes +2/3 nil: new round, own proposal, own prevote
+				c.g.Emit("die %d %d vote %d %d 1 %d -", c.g.Pick(3, 4, 4, 5), c.g.Intn(2), sg, h, r)
+			} else {
+				c.vote0(sg, h, 1, r, -1)
+			}
+		}
+	}
+	c.g.Emit("start")
+	c.g.Emit("tmo 3")
+	for _, sg := range A {
+		c.vote0(sg, h, 0, rme, -1)
+	}
+	c.g.Emit("tmo 5")
+	if c.g.Intn(2) == 0 {
+		c.crash()
+		c.g.Emit("start")
+	}
+	for _, sg := range A {
+		c.vote0(sg, h, 1, rme, -1)
+	}
+}
+
 func c01GenWith(g *Gen, crashy int, die bool) {
 	for i := 0; i < g.N; i++ {
 		n := 4
@@ -1308,9 +1560,19 @@ func c01GenWith(g *Gen, crashy int, die bool) {
 			n = g.Pick(5, 7)
 		}
 		c := &c01G{g: g, n: n, me: g.Intn(n), crashy: crashy, die: die}
-		g.Emit("init %d %d", c.n, c.me)
+		// C02: a quarter of the cases run on the engine's real file WAL
+		c.file = die && g.Intn(4) == 0
+		if c.file {
+			g.Emit("init %d %d f", c.n, c.me)
+		} else {
+			g.Emit("init %d %d", c.n, c.me)
+		}
 		g.Emit("start")
-		if n == 4 && c.proposer(1, 1) != c.me && g.Intn(10) == 0 {
+		if c.file && n == 4 && c.proposer(1, 0) != c.me && g.Intn(3) == 0 {
+			c.fileCrashScript()
+		} else if die && n == 4 && c.proposer(1, 0) != c.me && g.Intn(8) == 0 {
+			c.proposerCrashScript()
+		} else if n == 4 && c.proposer(1, 1) != c.me && g.Intn(10) == 0 {
 			save := c.crashy
 			if !die {
 				c.crashy = 0
